@@ -382,15 +382,29 @@ fn relay_build(cfg: &[u16]) -> Built {
     Built { cfg: c, prof, prelude_users: users, setup }
 }
 
-fn relay_owns(d: &Disc, _o: &StepOut, _t: &Trace) -> bool {
+// C13 owns framing/parse failures of emitted lines and *content* mismatches of relayed lines:
+// a line that was expected on a connection and arrived there with the same source and verb but
+// different parameters (target, text, reason, topic, nickname).  Pure audience errors (a copy
+// too many or too few) belong to C01/C04/C09/C10.
+fn relay_owns(d: &Disc, o: &StepOut, _t: &Trace) -> bool {
+    let same_slot = |a: &crate::norm::NL, b: &crate::norm::NL| a[0] == b[0] && a[1] == b[1] && a != b;
     match d {
         Disc::Framing { .. } | Disc::Malformed { .. } => true,
-        Disc::Missing { line, .. } | Disc::Extra { line, .. } => {
-            if line[0] == "S" {
+        Disc::Missing { line, conn } | Disc::Extra { line, conn } => {
+            let relevant = if line[0] == "S" {
                 ["301", "332"].contains(&line[1].as_str())
             } else {
                 ["PRIVMSG", "NOTICE", "TOPIC", "PART", "KICK", "NICK", "INVITE", "WALLOPS"].contains(&line[1].as_str())
+            };
+            if !relevant {
+                return false;
             }
+            let missing = matches!(d, Disc::Missing { .. });
+            o.discs.iter().any(|x| match x {
+                Disc::Extra { line: l2, conn: c2 } if missing => c2 == conn && same_slot(line, l2),
+                Disc::Missing { line: l2, conn: c2 } if !missing => c2 == conn && same_slot(line, l2),
+                _ => false,
+            })
         }
         _ => false,
     }
